@@ -305,8 +305,10 @@ func (g *GoBackNConn) Close() error {
 
 		// Try send a FIN message to the peer if they have not already
 		// done so.
+		finDone := make(chan struct{})
 		select {
 		case <-g.remoteClosed:
+			close(finDone)
 		default:
 			g.log.Tracef("Try sending FIN")
 
@@ -315,9 +317,23 @@ func (g *GoBackNConn) Close() error {
 			)
 			defer cancel()
 
-			err := g.sendPacket(ctxc, &PacketFIN{}, false)
-			if err != nil {
-				g.log.Errorf("Error sending FIN: %v", err)
+			// The send function may be stuck in a write of the
+			// underlying stream that only the cancellation of our
+			// main context releases (or be waiting for another such
+			// write to finish), so we don't let it hold up the
+			// shutdown for longer than the FIN timeout.
+			go func() {
+				defer close(finDone)
+
+				err := g.sendPacket(ctxc, &PacketFIN{}, false)
+				if err != nil {
+					g.log.Errorf("Error sending FIN: %v", err)
+				}
+			}()
+
+			select {
+			case <-finDone:
+			case <-ctxc.Done():
 			}
 		}
 
@@ -329,6 +345,7 @@ func (g *GoBackNConn) Close() error {
 		g.sendQueue.stop()
 
 		g.wg.Wait()
+		<-finDone
 
 		if g.pingTicker != nil {
 			g.pingTicker.Stop()
